@@ -25,7 +25,7 @@ func (*c08) ID() string    { return "C08" }
 func (*c08) Level() string { return "exploration" }
 func (*c08) NumCases(tier string) int {
 	if tier == "thorough" {
-		return 6000
+		return 3000
 	}
 	return 200
 }
